@@ -259,7 +259,7 @@ let handle_record (r : string) : issue list =
                   add (check kname (ext_max (z es) (z rows) (z st) (z loc)) balign_mat_src cap accs)
                 end
             | _ -> add [Guard (kname ^ ":model-error")])
-       | "dnew" | "dcap" | "dresize" | "dreserve" | "dfill" | "dclone" | "dfrom" | "dset" | "dsum" ->
+       | "dnew" | "dcap" | "dresize" | "dreserve" | "dfill" | "dclone" | "dfrom" | "dfromshort" | "dset" | "dsum" ->
            let es = gi "es" and c = gi "C" and rows0 = gi "rows0" and st = gi "st" in
            stride_check "dense" st es c;
            let arg = gi "arg" and arg2 = gi "arg2" in
@@ -283,6 +283,21 @@ let handle_record (r : string) : issue list =
                        add (check "from_rows" (ext_dense (z es) (z st) (z arg)) (fun _ -> z 32) (fun _ -> oi 1 * st * es) accs)
                      end
                  | _ -> add [Guard "from_rows:model-error"])
+            | "dfromshort" ->
+                (* the iterator's len() claims arg rows, it yields arg2 rows of the right width *)
+                (match fp_from_rows (z es) (z c) (z st) (z arg) (z arg2) (z (-1)) with
+                 | Panic _ -> if not panicked then add [Guard "from_rows(short):model-panics-implementation-did-not"]
+                 | Ok (Entered accs) ->
+                     if panicked then add [Guard "from_rows(short):implementation-panicked-model-does-not"]
+                     else begin
+                       let want = iz (from_rows_rows true (z arg) (z arg2)) in
+                       if oi 0 > arg2 then
+                         add [Invariant (Printf.sprintf "from_rows-exposes-unwritten-rows:rows()=%d-but-the-iterator-yielded-%d(len()=%d,es=%d,C=%d)" (oi 0) arg2 arg es c)]
+                       else if oi 0 <> want then add [Guard (Printf.sprintf "from_rows(short):rows-%d-model-%d" (oi 0) want)];
+                       add (check "from_rows" (ext_dense (z es) (z st) (z (max (oi 0) 0))) (fun _ -> z 32) (fun _ -> oi 1 * st * es)
+                              (List.filter (fun (a : access) -> iz a.aoff < oi 0 * st * es) accs))
+                     end
+                 | _ -> add [Guard "from_rows(short):model-error"])
             | "dset" ->
                 let should_panic = arg >= rows0 || arg2 >= c in
                 if should_panic <> panicked then add [Guard (Printf.sprintf "set:panic-%b-model-%b(%s)" panicked should_panic params)]
